@@ -72,6 +72,44 @@ theorem sumTo_indicator {M : Type} [AddCommMonoid M] (n l0 : ℕ) (g : ℕ → M
       · have : ¬ l0 < n + 1 := by omega
         simp [h1, h2, this]
 
+/-! ### more `sumTo` algebra (commutative semiring entries) -/
+
+theorem sumTo_zero {M : Type} [AddCommMonoid M] (n : ℕ) : sumTo n (fun _ => (0:M)) = 0 := by
+  rw [sumTo_eq_sum]; simp
+
+theorem sumTo_add {M : Type} [AddCommMonoid M] (p q : ℕ) (g : ℕ → M) :
+    sumTo (p + q) g = sumTo p g + sumTo q (fun a => g (p + a)) := by
+  induction q with
+  | zero => simp [sumTo]
+  | succ q ih => rw [← Nat.add_assoc]; simp only [sumTo]; rw [ih, add_assoc]
+
+/-- a sum over `n*m` flat indices as a double sum (`l*m + a`) -/
+theorem sumTo_mul {M : Type} [AddCommMonoid M] (n m : ℕ) (g : ℕ → M) :
+    sumTo (n*m) g = sumTo n (fun l => sumTo m (fun a => g (l*m + a))) := by
+  induction n with
+  | zero => simp [sumTo]
+  | succ n ih =>
+    have : (n+1)*m = n*m + m := by ring
+    rw [this, sumTo_add, ih]; simp only [sumTo]
+
+theorem sumTo_succ' {M : Type} [AddCommMonoid M] (n : ℕ) (g : ℕ → M) :
+    sumTo (n+1) g = g 0 + sumTo n (fun q => g (q+1)) := by
+  have h := sumTo_add 1 n g
+  rw [Nat.add_comm] at h
+  rw [h]; simp [sumTo, Nat.add_comm]
+
+theorem sumTo_add_fun {M : Type} [AddCommMonoid M] (n : ℕ) (f g : ℕ → M) :
+    sumTo n (fun l => f l + g l) = sumTo n f + sumTo n g := by
+  simp only [sumTo_eq_sum, Finset.sum_add_distrib]
+
+theorem sumTo_mul_right {R : Type} [CommSemiring R] (n : ℕ) (f : ℕ → R) (c : R) :
+    sumTo n (fun l => f l * c) = sumTo n f * c := by
+  simp only [sumTo_eq_sum, Finset.sum_mul]
+
+theorem sumTo_mul_left {R : Type} [CommSemiring R] (n : ℕ) (f : ℕ → R) (c : R) :
+    sumTo n (fun l => c * f l) = c * sumTo n f := by
+  simp only [sumTo_eq_sum, Finset.mul_sum]
+
 /-! ### derivative of a finite sum -/
 
 theorem hasDerivAt_sumTo (n : ℕ) (F : ℕ → ℝ → ℝ) (F' : ℕ → ℝ) (x : ℝ)
